@@ -7,6 +7,7 @@ import (
 	"time"
 
 	"github.com/hydraide/hydraide/app/core/hydra/swamp"
+	"github.com/hydraide/hydraide/app/core/hydra/swamp/chronicler"
 	"github.com/hydraide/hydraide/app/core/hydra/swamp/metadata"
 	"github.com/hydraide/hydraide/app/name"
 	"github.com/hydraide/hydraide/app/verifrt"
@@ -108,6 +109,106 @@ func VerifC17SummonShutdown(h *verifrt.H) {
 	h.Go("shutdown", func() { hy.MarkShuttingDown() })
 	h.AtQuiescence(func() {
 		h.Assert(returned == k, "every-summoner-returned")
+		h.Cover("end")
+	})
+}
+
+// ---------- C16: acknowledged writes vs. eviction / auto-destroy / destroy ----------
+
+var vhDir string
+
+// vhCreatePersist replaces createNewSwamp by a REAL persistent swamp (real chronicler V2 and
+// file format on the file-system model) wired to the hydra's real callbacks.
+func vhCreatePersist(hy *hydra, islandID uint64, n name.Name) swamp.Swamp {
+	vhLive++
+	vhCreated++
+	chr := chronicler.NewV2WithName(vhDir, 2, n.Get())
+	chr.CreateDirectoryIfNotExists()
+	return swamp.New(n, time.Duration(vhIdleSec)*time.Second, &swamp.FilesystemSettings{ChroniclerInterface: chr, WriteInterval: time.Second},
+		hy.eventCallbackFunction, hy.infoCallbackFunction, func(c name.Name) {
+			vhLive--
+			hy.closeEventCallbackFunction(c)
+		}, metadata.NewNoop())
+}
+
+var vhIdleSec = 3600
+
+func vhPut(s swamp.Swamp, key string, v int64) {
+	t := s.CreateTreasure(key)
+	g := t.StartTreasureGuard(true)
+	t.SetContentInt64(g, v)
+	t.Save(g)
+	t.ReleaseTreasureGuard(g)
+}
+
+// VerifC16Ack: a writer (summon, begin vigil, save k2, cease vigil => acknowledged) runs
+// concurrently with one lifecycle event on the same persistent swamp: the delete of the last
+// other record (auto-destroy), an explicit Destroy, or a graceful Close. Afterwards the swamp is
+// summoned again from its file: an acknowledged write must be present unless the lifecycle
+// event was an explicit Destroy that was requested after the acknowledgement... (a Destroy is an
+// acknowledged "remove everything", so k2 may be gone only if the Destroy call STARTED after the
+// write was acknowledged or overlapped it).
+func VerifC16Ack(h *verifrt.H) {
+	h.BackgroundLowPriority(true)
+	vhLive, vhCreated = 0, 0
+	vhDir = h.TempDir() + "/sw"
+	vhIdleSec = 3600
+	h.Stub("(*github.com/hydraide/hydraide/app/core/hydra.hydra).createNewSwamp", vhCreatePersist)
+	hy := New(nil, nil, nil, nil).(*hydra)
+	n := name.New().Sanctuary("s").Realm("r").Swamp("w")
+	ctx := context.Background()
+	s0, err := hy.SummonSwamp(ctx, 1, n)
+	h.Assert(err == nil, "setup-summon")
+	vhPut(s0, "k1", 1)
+	event := h.Choose("lifecycleEvent", h.Param("events", 2)) // 0 last-record delete, 1 graceful close, 2 explicit destroy
+	acked := false
+	v := h.Int64("value")
+	h.Assume(v != 0)
+	h.Go("writer", func() {
+		s, err := hy.SummonSwamp(ctx, 1, n)
+		if err != nil {
+			return
+		}
+		s.BeginVigil()
+		vhPut(s, "k2", v)
+		s.CeaseVigil()
+		acked = true
+	})
+	h.Go("lifecycle", func() {
+		s, err := hy.SummonSwamp(ctx, 1, n)
+		if err != nil {
+			return
+		}
+		switch event {
+		case 0:
+			s.BeginVigil()
+			_ = s.DeleteTreasure("k1", false)
+			s.CeaseVigil()
+		case 1:
+			s.Close()
+		case 2:
+			s.Destroy()
+		}
+	})
+	h.AtQuiescence(func() {
+		h.Assert(acked, "writer-finishes")
+		// re-open: close whatever instance is live, then summon from the file
+		if cur := hy.getSwamp(n); cur != nil && !cur.IsClosing() {
+			cur.Close()
+		}
+		r, err := hy.SummonSwamp(ctx, 1, n)
+		h.Assert(err == nil, "re-summon")
+		if err != nil {
+			return
+		}
+		t, gerr := r.GetTreasure("k2")
+		h.Known("C16-auto-destroy-deletes-concurrent-write", "acknowledged-write", event == 0)
+		h.Assert(gerr == nil, "acknowledged-write-present-after-reopen")
+		h.ClearKnown()
+		if gerr == nil {
+			got, _ := t.GetContentInt64()
+			h.Assert(got == v, "acknowledged-write-value-after-reopen")
+		}
 		h.Cover("end")
 	})
 }
